@@ -6,7 +6,7 @@ FW, FH = 3.2814933761920244, 7.037185254850074
 FL = math.sqrt(FW ** 2 + FH ** 2)
 
 LENGTH_KEYS = {'depth', 'r1', 'r2', 'r3', 'r4', 'usable_width', 'ground_width', 'even_ground_width', 'indent', 'tip_depth',
-               'flank_width', 'flank_height', 'flank_length', 'rib_distance', 'rib_width', 'base_body_height', 'nominal_outer_diameter'}
+               'flank_width', 'flank_height', 'flank_length', 'rib_distance', 'rib_width', 'base_body_height', 'nominal_outer_diameter', 'pad'}
 ANGLE_KEYS = {'flank_angle', 'pad_angle', 'tip_angle', 'rib_angle'}
 
 CATALOGUE = [
